@@ -114,6 +114,10 @@ type wireScript struct {
 	Iterr string      `json:"iterr"`
 	Rfail int         `json:"rfail"` // 0: a reader serves all it holds; k+1: it fails after k bytes (if it holds more)
 	Rcerr string      `json:"rcerr"` // answer of a reader's Close ("" = ok)
+	// the shape of every error of this script: bare (or ""), wrap (fmt %w), http = NewHTTPError(err,
+	// Estatus, nil, nil), httpresp / httprespbody = NewHTTPError(err, Estatus, a real response, nil / a body)
+	Eshape  string `json:"eshape"`
+	Estatus int    `json:"estatus"`
 }
 
 type wireOpts struct {
@@ -177,16 +181,36 @@ var wireStdErrors = map[string]error{
 
 var wireAnswers = []string{"ok", "uncoded", "BLOB_UNKNOWN", "BLOB_UPLOAD_INVALID", "BLOB_UPLOAD_UNKNOWN", "DIGEST_INVALID",
 	"MANIFEST_BLOB_UNKNOWN", "MANIFEST_INVALID", "MANIFEST_UNKNOWN", "NAME_INVALID", "NAME_UNKNOWN", "SIZE_INVALID",
-	"UNAUTHORIZED", "DENIED", "UNSUPPORTED", "TOOMANYREQUESTS", "RANGE_INVALID"}
+	"UNAUTHORIZED", "DENIED", "UNSUPPORTED", "TOOMANYREQUESTS", "RANGE_INVALID", "custom"}
 
-func wireErr(ans string) error {
-	if ans == "ok" || ans == "" {
+// errOf builds the error for one scripted answer, in the script's error shape.
+func (sc *wireScript) errOf(ans string) error {
+	var base error
+	switch {
+	case ans == "ok" || ans == "":
 		return nil
+	case ans == "custom":
+		base = ociregistry.NewError("scripted failure with a code of its own", "CUSTOM_CODE", nil)
+	case wireStdErrors[ans] != nil:
+		base = wireStdErrors[ans]
+	default:
+		base = errors.New("scripted failure without a code")
 	}
-	if e, ok := wireStdErrors[ans]; ok {
-		return e
+	switch sc.Eshape {
+	case "wrap":
+		return fmt.Errorf("backend says: %w", base)
+	case "http":
+		return ociregistry.NewHTTPError(base, sc.Estatus, nil, nil)
+	case "httpresp", "httprespbody":
+		resp := &http.Response{StatusCode: sc.Estatus, Status: fmt.Sprintf("%d %s", sc.Estatus, http.StatusText(sc.Estatus)),
+			Proto: "HTTP/1.1", ProtoMajor: 1, ProtoMinor: 1, Header: http.Header{"Content-Type": {"application/json"}}}
+		var body []byte
+		if sc.Eshape == "httprespbody" {
+			body = []byte(`{"errors":[{"code":"UPSTREAM","message":"what the upstream registry said"}]}`)
+		}
+		return ociregistry.NewHTTPError(base, sc.Estatus, resp, body)
 	}
-	return errors.New("scripted failure without a code")
+	return base
 }
 
 type wireBackend struct {
@@ -264,7 +288,7 @@ func (b *wireBackend) reader(data []byte) ociregistry.BlobReader {
 	if b.sc.Rfail > 0 && b.sc.Rfail-1 < len(data) {
 		failAt = b.sc.Rfail - 1
 	}
-	return &wireReader{obj: o, rd: bytes.NewReader(data), desc: b.desc(b.sc.Size), failAt: failAt, cerr: wireErr(b.sc.Rcerr)}
+	return &wireReader{obj: o, rd: bytes.NewReader(data), desc: b.desc(b.sc.Size), failAt: failAt, cerr: b.sc.errOf(b.sc.Rcerr)}
 }
 
 type wireWriter struct {
@@ -273,13 +297,13 @@ type wireWriter struct {
 }
 
 func (w *wireWriter) Write(p []byte) (int, error) {
-	if err := wireErr(w.b.sc.Werr); err != nil {
+	if err := w.b.sc.errOf(w.b.sc.Werr); err != nil {
 		return 0, err
 	}
 	w.obj.Written += len(p)
 	return len(p), nil
 }
-func (w *wireWriter) Close() error   { w.obj.Closes++; return wireErr(w.b.sc.Cerr) }
+func (w *wireWriter) Close() error   { w.obj.Closes++; return w.b.sc.errOf(w.b.sc.Cerr) }
 func (w *wireWriter) Size() int64    { return int64(w.b.sc.Wsize + w.obj.Written) }
 func (w *wireWriter) ChunkSize() int { return w.b.sc.Chunk }
 func (w *wireWriter) ID() string     { return w.b.sc.ID.str() }
@@ -287,7 +311,7 @@ func (w *wireWriter) Cancel() error  { return nil }
 func (w *wireWriter) Commit(d ociregistry.Digest) (ociregistry.Descriptor, error) {
 	w.obj.Commits++
 	w.obj.Cdig = wireOf(string(d))
-	if err := wireErr(w.b.sc.Merr); err != nil {
+	if err := w.b.sc.errOf(w.b.sc.Merr); err != nil {
 		return ociregistry.Descriptor{}, err
 	}
 	return w.b.desc(w.b.sc.Wsize + w.obj.Written), nil
@@ -330,14 +354,14 @@ func (b *wireBackend) funcs() *ociregistry.Funcs {
 		},
 		GetBlob_: func(ctx context.Context, repo string, d ociregistry.Digest) (ociregistry.BlobReader, error) {
 			b.rec(wireCall{Fn: "GetBlob", Repo: wireOf(repo), Dig: wireOf(string(d))})
-			if err := wireErr(sc.Ans); err != nil {
+			if err := sc.errOf(sc.Ans); err != nil {
 				return nil, err
 			}
 			return b.reader(b.content()), nil
 		},
 		GetBlobRange_: func(ctx context.Context, repo string, d ociregistry.Digest, o0, o1 int64) (ociregistry.BlobReader, error) {
 			b.rec(wireCall{Fn: "GetBlobRange", Repo: wireOf(repo), Dig: wireOf(string(d)), A: int(o0), B: int(o1)})
-			if err := wireErr(sc.Ans); err != nil {
+			if err := sc.errOf(sc.Ans); err != nil {
 				return nil, err
 			}
 			data := b.content()
@@ -358,76 +382,76 @@ func (b *wireBackend) funcs() *ociregistry.Funcs {
 		},
 		GetManifest_: func(ctx context.Context, repo string, d ociregistry.Digest) (ociregistry.BlobReader, error) {
 			b.rec(wireCall{Fn: "GetManifest", Repo: wireOf(repo), Dig: wireOf(string(d))})
-			if err := wireErr(sc.Ans); err != nil {
+			if err := sc.errOf(sc.Ans); err != nil {
 				return nil, err
 			}
 			return b.reader(b.content()), nil
 		},
 		GetTag_: func(ctx context.Context, repo string, tag string) (ociregistry.BlobReader, error) {
 			b.rec(wireCall{Fn: "GetTag", Repo: wireOf(repo), Tag: wireOf(tag)})
-			if err := wireErr(sc.Ans); err != nil {
+			if err := sc.errOf(sc.Ans); err != nil {
 				return nil, err
 			}
 			return b.reader(b.content()), nil
 		},
 		ResolveBlob_: func(ctx context.Context, repo string, d ociregistry.Digest) (ociregistry.Descriptor, error) {
 			b.rec(wireCall{Fn: "ResolveBlob", Repo: wireOf(repo), Dig: wireOf(string(d))})
-			return b.desc(sc.Size), wireErr(sc.Ans)
+			return b.desc(sc.Size), sc.errOf(sc.Ans)
 		},
 		ResolveManifest_: func(ctx context.Context, repo string, d ociregistry.Digest) (ociregistry.Descriptor, error) {
 			b.rec(wireCall{Fn: "ResolveManifest", Repo: wireOf(repo), Dig: wireOf(string(d))})
-			return b.desc(sc.Size), wireErr(sc.Ans)
+			return b.desc(sc.Size), sc.errOf(sc.Ans)
 		},
 		ResolveTag_: func(ctx context.Context, repo string, tag string) (ociregistry.Descriptor, error) {
 			b.rec(wireCall{Fn: "ResolveTag", Repo: wireOf(repo), Tag: wireOf(tag)})
-			return b.desc(sc.Size), wireErr(sc.Ans)
+			return b.desc(sc.Size), sc.errOf(sc.Ans)
 		},
 		PushBlob_: func(ctx context.Context, repo string, desc ociregistry.Descriptor, r io.Reader) (ociregistry.Descriptor, error) {
 			n, _ := io.Copy(io.Discard, r)
 			b.rec(wireCall{Fn: "PushBlob", Repo: wireOf(repo), Dig: wireOf(string(desc.Digest)), A: int(desc.Size), B: int(n), Mt: wireOf(desc.MediaType)})
-			return b.desc(int(n)), wireErr(sc.Ans)
+			return b.desc(int(n)), sc.errOf(sc.Ans)
 		},
 		PushBlobChunked_: func(ctx context.Context, repo string, chunkSize int) (ociregistry.BlobWriter, error) {
 			b.rec(wireCall{Fn: "PushBlobChunked", Repo: wireOf(repo), A: chunkSize})
-			if err := wireErr(sc.Ans); err != nil {
+			if err := sc.errOf(sc.Ans); err != nil {
 				return nil, err
 			}
 			return b.writer(), nil
 		},
 		PushBlobChunkedResume_: func(ctx context.Context, repo, id string, offset int64, chunkSize int) (ociregistry.BlobWriter, error) {
 			b.rec(wireCall{Fn: "PushBlobChunkedResume", Repo: wireOf(repo), ID: wireOf(id), A: int(offset), B: chunkSize})
-			if err := wireErr(sc.Ans); err != nil {
+			if err := sc.errOf(sc.Ans); err != nil {
 				return nil, err
 			}
 			return b.writer(), nil
 		},
 		MountBlob_: func(ctx context.Context, fromRepo, toRepo string, d ociregistry.Digest) (ociregistry.Descriptor, error) {
 			b.rec(wireCall{Fn: "MountBlob", Repo: wireOf(toRepo), From: wireOf(fromRepo), Dig: wireOf(string(d))})
-			return b.desc(sc.Size), wireErr(sc.Ans)
+			return b.desc(sc.Size), sc.errOf(sc.Ans)
 		},
 		PushManifest_: func(ctx context.Context, repo string, tag string, contents []byte, mediaType string) (ociregistry.Descriptor, error) {
 			b.rec(wireCall{Fn: "PushManifest", Repo: wireOf(repo), Tag: wireOf(tag), B: len(contents), Sha: wireOf(wireSha(contents)), Mt: wireOf(mediaType)})
-			return b.desc(len(contents)), wireErr(sc.Ans)
+			return b.desc(len(contents)), sc.errOf(sc.Ans)
 		},
 		DeleteBlob_: func(ctx context.Context, repo string, d ociregistry.Digest) error {
 			b.rec(wireCall{Fn: "DeleteBlob", Repo: wireOf(repo), Dig: wireOf(string(d))})
-			return wireErr(sc.Ans)
+			return sc.errOf(sc.Ans)
 		},
 		DeleteManifest_: func(ctx context.Context, repo string, d ociregistry.Digest) error {
 			b.rec(wireCall{Fn: "DeleteManifest", Repo: wireOf(repo), Dig: wireOf(string(d))})
-			return wireErr(sc.Ans)
+			return sc.errOf(sc.Ans)
 		},
 		DeleteTag_: func(ctx context.Context, repo string, name string) error {
 			b.rec(wireCall{Fn: "DeleteTag", Repo: wireOf(repo), Tag: wireOf(name)})
-			return wireErr(sc.Ans)
+			return sc.errOf(sc.Ans)
 		},
 		Repositories_: func(ctx context.Context, startAfter string) ociregistry.Seq[string] {
 			b.rec(wireCall{Fn: "Repositories", Last: wireOf(startAfter)})
-			return wireSeq(b.itemStrings(), wireErr(sc.Iterr))
+			return wireSeq(b.itemStrings(), sc.errOf(sc.Iterr))
 		},
 		Tags_: func(ctx context.Context, repo string, startAfter string) ociregistry.Seq[string] {
 			b.rec(wireCall{Fn: "Tags", Repo: wireOf(repo), Last: wireOf(startAfter)})
-			return wireSeq(b.itemStrings(), wireErr(sc.Iterr))
+			return wireSeq(b.itemStrings(), sc.errOf(sc.Iterr))
 		},
 		Referrers_: func(ctx context.Context, repo string, d ociregistry.Digest, artifactType string) ociregistry.Seq[ociregistry.Descriptor] {
 			b.rec(wireCall{Fn: "Referrers", Repo: wireOf(repo), Dig: wireOf(string(d)), Mt: wireOf(artifactType)})
@@ -435,7 +459,7 @@ func (b *wireBackend) funcs() *ociregistry.Funcs {
 			for i, x := range sc.Items {
 				ds[i] = ociregistry.Descriptor{MediaType: "application/vnd.oci.image.manifest.v1+json", Digest: ociregistry.Digest(x.str()), Size: 1}
 			}
-			return wireSeq(ds, wireErr(sc.Iterr))
+			return wireSeq(ds, sc.errOf(sc.Iterr))
 		},
 	}
 }
@@ -537,6 +561,9 @@ func wireRun(c wireCase) (ev any) {
 	}
 	if c.Sc.Rcerr == "" {
 		c.Sc.Rcerr = "ok"
+	}
+	if c.Sc.Eshape == "" {
+		c.Sc.Eshape = "bare"
 	}
 	if c.O.Locs == "" {
 		c.O.Locs = "nil"
@@ -1182,6 +1209,12 @@ func wireRandom(r *rand.Rand) wireCase {
 		} else {
 			c.Sc.Items = append(c.Sc.Items, wireOf(wireOne(r, "a", "b", "c", "latest", "v1.0", "foo/bar", "x y", "é", "a&b=c", wirePick(r, wireLow, 1+r.Intn(5)))))
 		}
+	}
+	// error shape
+	c.Sc.Eshape = "bare"
+	if r.Intn(3) == 0 {
+		c.Sc.Eshape = wireOne(r, "wrap", "http", "httpresp", "httprespbody")
+		c.Sc.Estatus = []int{400, 401, 403, 404, 405, 409, 416, 418, 429, 500, 502, 503}[r.Intn(12)]
 	}
 	// reader faults
 	if r.Intn(8) == 0 {
